@@ -10,7 +10,7 @@ SPEC = {
     "lean_modules": ["TrustVerif.Props.C19"],
     "tiers": {
         "quick": {"cases": 900, "extra": {}},
-        "thorough": {"cases": 22000, "extra": {"stress": 40}},
+        "thorough": {"cases": 15000, "extra": {"stress": 40}},
     },
     "disagreement_is_violation": True,
     "rule": "case = sentinel tree (outside files, hidden entries, directory/file links pointing out, in, at hidden "
@@ -60,7 +60,7 @@ MANIFEST = {
                   "for every well-formed file system with links anywhere, every session table and every argument); "
                   "c19_gates_first / c19_refused_keeps_documents (unless write_enabled and a live editor token, the file "
                   "system, tracked documents and audit log are unchanged and no mutation was attempted before the "
-                  "refusal); c19_no_lost_update_partial, c19_version_chain, c19_disk_is_last_success (all interleavings "
+                  "refusal); c19_no_lost_update_partial, c19_version_chain_partial, c19_disk_is_last_success_partial (all interleavings "
                   "of any number of clients' unlocked reads and locked sections, arbitrary expected versions and "
                   "tracked-text overrides). Each run executes the model and the real WebIdeState on the same generated "
                   "trees and operation sequences and compares every answer and the whole-tree diff after every "
